@@ -12,7 +12,7 @@ stored value is off by at most one unit ``u = 0.5 * 10**-decimals`` plus whateve
 inputs contribute.  ``Q`` holds the two units in play: ``own`` for the indicator's visible reading
 (``round_value``) and ``sub`` for intermediate series that are themselves indicators (in the pinned
 tree helper indicators are created without ``round_value`` and so round to 4 decimals; the unit used
-is max(own, 0.5e-4) so the budget stays sound should helpers start to inherit ``round_value``).
+is 0.5e-4: helpers round with their own default whatever the visible reading's ``round_value``).
 ``V`` arithmetic propagates the bound through +, -, *, / (first-order interval bounds, conservative);
 recurrences therefore yield the geometric drift budget automatically:
     EMA   e[t] = (1-a) e[t-1] + a e_x + u          (<= u/a + e_x)
@@ -45,7 +45,9 @@ class Q:
 
     def __init__(self, round_value=4, sub_round_value=4):
         self.own = 0.5 * 10.0 ** -round_value
-        self.sub = max(self.own, 0.5 * 10.0 ** -sub_round_value)
+        # helper indicators keep their OWN default rounding (4 decimals) whatever the visible reading's round_value is: that is the
+        # configured rounding on this tree, and a coarser helper rounding is an error the property does not allow for
+        self.sub = 0.5 * 10.0 ** -sub_round_value
 
 
 class V:
